@@ -104,6 +104,9 @@ def layout_form(prefix, tsuf, rsuf, style, target_first, ref_kind, with_cells=Tr
             Row("q", "date", "dflt_d", {"label": "d", "default": f"{R} - 1"}),
             Row("q", "geopoint", "dflt_g", {"label": "g", "default": f"if({R} - 1 > 0, {R}, '')"}),
             Row("q", "dateTime", "dflt_dt", {"label": "dt", "default": f"{R}-{R}"}),
+            # the literal first, the reference after the '-': still an expression
+            Row("q", "date", "dflt_d2", {"label": "d2", "default": f"2020-01-01 - {R}"}),
+            Row("q", "geopoint", "dflt_g2", {"label": "g2", "default": f"-1 * {R}"}),
             # a bare last-saved reference (the whole cell), the shortest possible one when the name has one character
             Row("q", "text", "dflt_ls", {"label": "ls", "default": "${last-saved#%s}" % tname}),
         ])
